@@ -2,7 +2,7 @@
    skipped (csv_comments_safe), witnesses of the excluded classes; '%.4f' (nearest, ties to even,
    monotone, unit interval, digits round trip). *)
 From Coq Require Import ZArith List Bool Lia.
-From CTM Require Import Base.Sx Model.Output Model.CsvText Proofs.OutputP.
+From CTM Require Import Base.Sx Base.SortX Model.Output Model.CsvText Proofs.OutputP.
 Import ListNotations.
 Open Scope Z_scope.
 
@@ -703,4 +703,112 @@ Lemma csv_text_injective r1 r2 :
 Proof.
   intros H1 H2 E. pose proof (csv_roundtrip r1 H1) as P1. pose proof (csv_roundtrip r2 H2) as P2.
   rewrite E in P1. congruence.
+Qed.
+
+(* ------------------------------------------------------------------ negative values *)
+Lemma rhe_opp n d : 0 < d -> round_half_even (- n, d) = - round_half_even (n, d).
+Proof.
+  intros Hd. unfold round_half_even.
+  pose proof (Z.div_mod n d ltac:(lia)) as Hdm.
+  pose proof (Z.mod_pos_bound n d Hd) as Hb.
+  pose proof (Z.div_mod (- n) d ltac:(lia)) as Hdm'.
+  pose proof (Z.mod_pos_bound (- n) d Hd) as Hb'.
+  set (q := n / d) in *. set (r := n mod d) in *.
+  set (q' := - n / d) in *. set (r' := - n mod d) in *.
+  assert (Hs : d * (q + q') = - (r + r')) by lia.
+  assert (Hs2 : -2 < q + q' < 1) by nia.
+  assert (Hq : (q + q' = 0 /\ r = 0 /\ r' = 0) \/ (q + q' = -1 /\ r + r' = d)).
+  { destruct (Z.eq_dec (q + q') 0) as [E0|E0]; [left; rewrite E0 in Hs; lia|].
+    right. assert (E1 : q + q' = -1) by lia. rewrite E1 in Hs. lia. }
+  destruct (2 * r <? d) eqn:E1; destruct (2 * r' <? d) eqn:E1';
+    destruct (d <? 2 * r) eqn:E2; destruct (d <? 2 * r') eqn:E2';
+    try apply Z.ltb_lt in E1; try apply Z.ltb_ge in E1; try apply Z.ltb_lt in E1'; try apply Z.ltb_ge in E1';
+    try apply Z.ltb_lt in E2; try apply Z.ltb_ge in E2; try apply Z.ltb_lt in E2'; try apply Z.ltb_ge in E2';
+    try lia.
+  assert (Hq' : q' = - Z.succ q) by lia.
+  rewrite Hq', Z.even_opp, Z.even_succ, <- Z.negb_even. destruct (Z.even q); cbn [negb]; lia.
+Qed.
+
+Lemma fmt4_opp n d : 0 < d -> fmt4 (- n, d) = - fmt4 (n, d).
+Proof.
+  intros Hd. unfold fmt4. cbn [fst snd]. replace (- n * 10000) with (- (n * 10000)) by lia.
+  apply rhe_opp. exact Hd.
+Qed.
+
+Lemma fmt4_nonneg n d : 0 <= n -> 0 < d -> 0 <= fmt4 (n, d).
+Proof.
+  intros Hn Hd. change 0 with (fmt4 (0, 1)) at 1. apply fmt4_mono; cbn [fst snd]; lia.
+Qed.
+
+(* the confidence field of the text reads back (digits '.' four digits, optional '-') as the JSON value
+   rounded to four decimals: fmt4 x is what c15_four_decimals bounds *)
+Theorem fmt4_rat_text_parse (x : rat) : 0 < snd x -> parse_fixed4 (fmt4_rat_text x) = Some (fmt4 x).
+Proof.
+  destruct x as [n d]; cbn [fst snd]; intros Hd. unfold fmt4_rat_text. cbn [fst snd].
+  destruct (n <? 0) eqn:E.
+  - apply Z.ltb_lt in E. unfold parse_fixed4. change (45 =? 45) with true. cbv iota.
+    rewrite fixed4u_roundtrip by (apply fmt4_nonneg; lia). cbn [option_map].
+    rewrite fmt4_opp by exact Hd. f_equal. lia.
+  - apply Z.ltb_ge in E. apply fixed4_roundtrip. apply fmt4_nonneg; lia.
+Qed.
+
+(* on a double (-1)^neg * m * 2^e (not the negative zero) the text is what '%.4f' prints *)
+Lemma fmt4_rat_text_dyadic (neg : bool) (m e : Z) :
+  (if neg then 0 < m else 0 <= m) ->
+  fmt4_rat_text (dyadic (if neg then - m else m) e) = fmt4_text neg m e.
+Proof.
+  intros Hm. unfold fmt4_rat_text, fmt4_text, fmt4k, dyadic.
+  destruct neg; destruct (0 <=? e) eqn:E; cbn [fst snd app].
+  - apply Z.leb_le in E. pose proof (Z.pow_pos_nonneg 2 e ltac:(lia) E) as Hp.
+    assert (Hlt : (- m * 2 ^ e <? 0) = true) by (apply Z.ltb_lt; nia).
+    rewrite Hlt. replace (- (- m * 2 ^ e)) with (m * 2 ^ e) by lia. reflexivity.
+  - assert (Hlt : (- m <? 0) = true) by (apply Z.ltb_lt; lia).
+    rewrite Hlt. rewrite Z.opp_involutive. reflexivity.
+  - apply Z.leb_le in E. pose proof (Z.pow_pos_nonneg 2 e ltac:(lia) E) as Hp.
+    assert (Hlt : (m * 2 ^ e <? 0) = false) by (apply Z.ltb_ge; nia).
+    rewrite Hlt. reflexivity.
+  - assert (Hlt : (m <? 0) = false) by (apply Z.ltb_ge; lia).
+    rewrite Hlt. reflexivity.
+Qed.
+
+(* ------------------------------------------------------------------ the file of a blob *)
+Theorem csv_text_of_blob names reprs repo version nm hier meta algo conf sticky categ b text :
+  (conf < 2)%nat ->
+  NoDup (map (level_to_name nm) hier) ->
+  blob_to_csv_text names reprs repo version nm hier meta algo conf sticky categ b = Ok text ->
+  exists cols rows,
+    let bodies := csv_comment_bodies names repo version nm hier meta algo in
+    let table := map (col_name names conf) cols :: rows in
+    text = csv_file bodies table /\
+    (forallb comment_ok bodies = true -> well_shaped true table = true -> csv_parse true text = Some table) /\
+    length rows = length b /\
+    forall i cl row,
+      nth_error b i = Some cl -> nth_error rows i = Some row ->
+      tget cols row KId = Some (name_str names (c_id cl)) /\
+      forall j level l,
+        nth_error hier j = Some level -> nth_error (c_levels cl) j = Some l ->
+        let rl := level_to_name nm level in
+        tget cols row (KLabel rl) = Some (name_str names (l_assign l)) /\
+        tget cols row (KName rl) = Some (name_str names (label_to_name nm level (l_assign l) false)) /\
+        (S j = length hier ->
+           tget cols row (KAlias rl) = Some (name_str names (label_to_name nm level (l_assign l) true))) /\
+        tget cols row (KField rl conf) =
+          Some (if zmem rl categ
+                then match rassoc (conf_value conf l) reprs with Some s => s | None => [] end
+                else fmt4_rat_text (conf_value conf l)).
+Proof.
+  intros Hconf Hnd H. unfold blob_to_csv_text, blob_to_csv_table in H.
+  destruct (blob_to_table (fun k v => cell_text names reprs (col_categ categ k) v) nm hier conf sticky b)
+    as [[cols rows]|] eqn:E; cbn [bind fst snd] in H; [|discriminate].
+  apply Ok_inj in H. exists cols, rows. cbv zeta.
+  split; [symmetry; exact H|]. split.
+  - intros Hb Hw. rewrite <- H. apply csv_comments_safe; assumption.
+  - destruct (table_rows _ nm hier conf sticky b cols rows Hconf Hnd E) as (Hlen & Hrows).
+    split; [exact Hlen|].
+    intros i cl row Hbi Hrow. destruct (Hrows i cl row Hbi Hrow) as (Hid & Hlv).
+    split; [exact Hid|].
+    intros j level l Hh Hl. pose proof (Hlv j level l Hh Hl) as Hx. cbv zeta in Hx.
+    destruct Hx as (HA & HB & HC & HD).
+    split; [exact HA|]. split; [exact HB|]. split; [exact HC|].
+    rewrite HD. cbn. reflexivity.
 Qed.
